@@ -208,7 +208,7 @@ def assemble2(items, layout):
                     dst['data_recs'].append(len(recs))
                     recs.append(src.pop(0))
             passes.extend([pa, pb])
-    data, lay = L.build_file(recs, layout.get('maxlen', 65535), tif=layout.get('tif'))
+    data, lay = L.build_file(recs, layout.get('maxlen', 65535), tif=layout.get('tif'), pad_to=layout.get('pad'))
     return data, lay, info, entries, passes
 
 
